@@ -330,19 +330,43 @@ def run_lines(exe, lines, env=None, timeout=600, args=(), max_crashes=200):
     return out, crashes
 
 
+SELFGEN_STALL = 180
+
+
 def run_selfgen(exe, args, env=None, timeout=900):
     """Pattern B.  Returns dict with viols, stats, sigs, samples, crash."""
     res = {'viols': [], 'stats': {}, 'sigs': set(), 'nsig_nt': set(),
            'samples': [], 'crash': None, 'lastcase': None, 'cases': 0}
-    try:
-        p = subprocess.run([exe] + list(args), stdout=subprocess.PIPE,
-                           stderr=subprocess.PIPE, env=child_env(env),
-                           timeout=timeout)
-        rc, so, se = p.returncode, p.stdout, p.stderr
+    # The driver's stdout is line-buffered: besides the overall watchdog, an
+    # invocation that prints nothing for `stall` seconds is stopped (the
+    # caller then re-runs the case it was in alone before calling it a hang).
+    import tempfile
+    import time as _time
+    stall = SELFGEN_STALL
+    with tempfile.TemporaryFile() as fo, tempfile.TemporaryFile() as fe:
+        p = subprocess.Popen([exe] + list(args), stdout=fo, stderr=fe, env=child_env(env))
+        t0 = tlast = _time.time()
+        lastsize = 0
         hung = False
-    except subprocess.TimeoutExpired as e:
-        rc, so, se = -999, e.stdout or b'', e.stderr or b''
-        hung = True
+        while True:
+            try:
+                p.wait(timeout=1.0)
+                break
+            except subprocess.TimeoutExpired:
+                pass
+            now = _time.time()
+            sz = os.fstat(fo.fileno()).st_size
+            if sz != lastsize:
+                lastsize, tlast = sz, now
+            if now - t0 > timeout or now - tlast > stall:
+                p.kill()
+                p.wait()
+                hung = True
+                break
+        rc = -999 if hung else p.returncode
+        fo.seek(0)
+        fe.seek(0)
+        so, se = fo.read(), fe.read()
     for l in so.decode(errors='replace').split('\n'):
         if l.startswith('CASE '):
             res['lastcase'] = l[5:].strip()
